@@ -83,7 +83,7 @@ func flagSet(name string) bool {
 func runProp(spec *PropSpec, tier, mutant string, noMut bool) (code int) {
 	start := time.Now()
 	c := &Ctx{Prop: spec.ID, Tier: tier, Rules: map[string]*RuleStat{}, FuncsSeen: map[string]bool{}, Extra: map[string]interface{}{}}
-	c.Explanation = spec.Explanation
+	c.Explanation = spec.Explanation + round8Explanations[spec.ID]
 	var runErr error
 	var mut *MutantSummary
 	defer func() {
